@@ -74,11 +74,28 @@ def case_text(case):
     return t if case['dirty'] else c0
 
 
+G_C0, G_T = b'g1\ng2\ng3\n', b'g1\ng3\n'
+PRE_LINES = {'w t': b'w t', 'w! t': b'w! t', 'rw! t': b'1,2w! t', 'pipe': b'w !cat >/dev/null'}
+PRE_MODEL = {'w t': 'w@other@-', 'w! t': 'w!@other@-', 'rw! t': 'w!@other@0,2', 'pipe': 'pipe@own@-'}
+
+
+def g_text(case):
+    return G_T if case['buf2']['dirty'] else G_C0
+
+
 def script_of(case, retry=False):
     c0, edit, t = base_text(case['size'])
     sc = []
     if case['own'] == 'newer':
         sc.append(b'!touch f')          # before the edit: `!` refuses to run while the buffer is modified
+    if case.get('buf2'):
+        # a second buffer g: load it, make it newer on disk / modified, come back to f (g becomes bufs[1])
+        sc.append(b'e g')
+        if case['buf2']['state'] == 'newer':
+            sc.append(b'!touch g')
+        if case['buf2']['dirty']:
+            sc.append(b'2d')
+        sc.append(b'e! f')
     if case['own'] == 'absent':
         # the buffer starts empty; give it the text by reading a helper file
         if case['dirty'] and t:
@@ -92,6 +109,8 @@ def script_of(case, retry=False):
         line = b'%d,%dw%s%s' % (b + 1, e, b'!' if cmd.endswith('!') else b'', tgt)
     else:
         line = cmd.encode() + tgt
+    for pc in case.get('pre', []):
+        sc.append(PRE_LINES[pc])        # earlier writes of the same session (other path, range, filter)
     sc += [b'ec ' + S1, line, b'ec ' + S2, b'q', b'ec ' + ALIVE]
     if retry:
         if cmd.startswith('rw'):
@@ -119,9 +138,13 @@ def run_case(vi, case, sched, retry=False, timeout=20):
             f.write(b'FOREIGN DATA\n' * 3)
         ts = 0 if case['other'] == 'epoch' else old - 5000
         os.utime(os.path.join(d, 't'), (ts, ts))
+    if case.get('buf2'):
+        with open(os.path.join(d, 'g'), 'wb') as f:
+            f.write(G_C0)
+        os.utime(os.path.join(d, 'g'), (old, old))
     log = os.path.join(d, 'shim.log')
     env = {'PATH': '/usr/bin:/bin', 'HOME': d, 'EXINIT': '', 'TERM': 'xterm', 'LINES': '24', 'COLUMNS': '80',
-           'LD_PRELOAD': build_shim(), 'NVSHIM_TARGETS': 'f:t', 'NVSHIM_LOG': log,
+           'LD_PRELOAD': build_shim(), 'NVSHIM_TARGETS': 'f:t:g', 'NVSHIM_LOG': log,
            'NVSHIM_SCHED': ','.join('%d:%s:%d' % s for s in sched)}
     p = subprocess.Popen([vi, '-s', '-e', 'f'], stdin=subprocess.PIPE, stdout=subprocess.PIPE, stderr=subprocess.PIPE, cwd=d, env=env,
                          start_new_session=True)
@@ -143,9 +166,9 @@ def run_case(vi, case, sched, retry=False, timeout=20):
     if os.path.exists(log):
         for l in open(log).read().split('\n'):
             w = l.split()
-            if len(w) >= 3 and w[0] != '-':
-                calls.append({'i': int(w[0]), 'op': w[1], 'n': int(w[2]) if w[1] == 'write' else 0, 'err': 'err' in w[3:] or (w[1] != 'write' and w[2] == 'err')})
-    ob = {'rc': rc, 'own': rd('f'), 'other': rd('t'), 'calls': calls, 'hung': rc is None,
+            if len(w) >= 4 and w[0] != '-':
+                calls.append({'i': int(w[0]), 'op': w[1], 'n': int(w[2]) if w[1] == 'write' else 0, 'err': 'err' in w[2:-1], 'name': w[-1]})
+    ob = {'rc': rc, 'own': rd('f'), 'other': rd('t'), 'g': rd('g'), 'calls': calls, 'hung': rc is None,
           'crash': rc is None or rc < 0 or rc >= 100}
     shutil.rmtree(d, ignore_errors=True)
     seg = out.split(S1, 1)[1] if S1 in out else b''
@@ -175,12 +198,22 @@ def model_request(case, sched_words):
           'rec': '-1' if case['own'] == 'absent' else '100',
           'other': 'absent' if case['other'] == 'absent' else vlib.hx(b'FOREIGN DATA\n' * 3), 'otherm': '0' if case['other'] == 'epoch' else '50',
           'sched': ','.join(sched_words) if sched_words else '-'}
+    if case.get('pre'):
+        kv['pre'] = ';'.join(PRE_MODEL[pc] for pc in case['pre'])
+    if case.get('buf2'):
+        kv.update({'gtext': vlib.hx(g_text(case)), 'gdirty': '1' if case['buf2']['dirty'] else '0', 'g': vlib.hx(G_C0),
+                   'gm': '102' if case['buf2']['state'] == 'newer' else '100', 'grec': '100'})
     return 'sv ' + ' '.join('%s=%s' % kv_ for kv_ in kv.items())
 
 
-def sched_words(pos, kind, arg):
-    """the model's outcome list for one fault at call index pos"""
-    return ['o'] * pos + (['e'] if kind == 'err' else ['s%d' % arg])
+def sched_words(sched):
+    """the model's outcome list for the faults (index, kind, arg) of one schedule"""
+    if not sched:
+        return []
+    out = ['o'] * (max(s[0] for s in sched) + 1)
+    for i, kind, arg in sched:
+        out[i] = 'e' if kind == 'err' else 's%d' % arg
+    return out
 
 
 def base_cases():
@@ -205,20 +238,49 @@ def base_cases():
                     if cmd.startswith('rw'):
                         c['rng'] = [1, nl] if nl > 2 else [0, 1]
                     out.append(c)
+    # multi-command histories: earlier writes of the session (to another path, of a range, through a filter)
+    # before the guarded write of the edited file
+    for size in ('one', 'multi'):
+        for cmd in ('w', 'w!', 'wq', 'x', 'xa'):
+            for own in ('newer', 'unchanged', 'absent'):
+                for other, pre in (('absent', ['w t']), ('absent', ['pipe']), ('exists', ['rw! t']), ('exists', ['w t']),
+                                   ('absent', ['w t', 'pipe', 'w! t']), ('epoch', ['w! t', 'rw! t'])):
+                    out.append({'size': size, 'cmd': cmd, 'dirty': True, 'tgt': 'own', 'own': own, 'other': other, 'pre': pre})
+    # two buffers: wq / x / xa with a second buffer that is modified or not, newer on disk or not
+    for size in ('one', 'multi'):
+        for cmd in ('xa', 'xa!', 'wq', 'wq!', 'x'):
+            for own, dirty in (('unchanged', True), ('newer', True), ('unchanged', False)):
+                for gd in (True, False):
+                    for gs in ('unchanged', 'newer'):
+                        out.append({'size': size, 'cmd': cmd, 'dirty': dirty, 'tgt': 'own', 'own': own, 'other': 'absent',
+                                    'buf2': {'dirty': gd, 'state': gs}})
     return out
 
 
 def faults_for(calls):
-    """every position x kind for the dry-run call sequence"""
-    out = []
+    """schedules (lists of faults) for the dry-run call sequence: every position x one fault, and at every write
+    two and three consecutive faults inside one write_fully loop (short counts followed by an error on the retry;
+    transient = one error, persistent = the error repeats on the following calls)"""
+    one, multi = [], []
     for c in calls:
+        i = c['i']
         for en in ('ENOSPC', 'EIO', 'EINTR'):
-            out.append((c['i'], 'err', ERRNOS[en]))
+            one.append([(i, 'err', ERRNOS[en])])
         if c['op'] == 'write' and c['n'] > 1:
-            out.append((c['i'], 'short', 1))
-            if c['n'] > 2:
-                out.append((c['i'], 'short', c['n'] - 1))
-    return out
+            n = c['n']
+            one.append([(i, 'short', 1)])
+            if n > 2:
+                one.append([(i, 'short', n - 1)])
+            for k in sorted({1, n - 1, n // 2} - {0}):
+                for en in ('ENOSPC', 'EIO'):
+                    multi.append([(i, 'short', k), (i + 1, 'err', ERRNOS[en])])
+                multi.append([(i, 'short', k), (i + 1, 'short', 1)])
+            if n > 2:
+                multi.append([(i, 'short', 1), (i + 1, 'short', 1), (i + 2, 'err', ERRNOS['EIO'])])
+                multi.append([(i, 'short', 1), (i + 1, 'short', n - 2), (i + 2, 'err', ERRNOS['ENOSPC'])])
+                multi.append([(i, 'short', n - 1)] + [(i + j, 'err', ERRNOS['ENOSPC']) for j in range(1, 6)])
+                multi.append([(i, 'short', 1), (i + 1, 'err', ERRNOS['EINTR']), (i + 3, 'err', ERRNOS['EIO'])])
+    return one, multi
 
 
 def oracle(case, sched, ob, ob_retry):
@@ -235,13 +297,27 @@ def oracle(case, sched, ob, ob_retry):
     wrote_cmd = not (case['cmd'] in ('x', 'x!', 'xa', 'xa!') and not case['dirty'] and 'a' not in case['cmd'])
     protected = not force and ((case['tgt'] == 'other' and case['other'] != 'absent') or (case['tgt'] == 'own' and case['own'] == 'newer'))
     reported_ok = ob['cls'] == 'ok' or (ob['quit_by_cmd'] and wrote_cmd)
-    injected_err = any(c['err'] for c in ob['calls'])
+    # the earlier commands of a history only touch t; the command under test touches f (and g)
+    final_calls = [c for c in ob['calls'] if not (case.get('pre') and c['name'] == 't')]
+    injected_err = any(c['err'] for c in final_calls)
+    tname = 'f' if case['tgt'] == 'own' else 't'
+    buf2 = case.get('buf2')
+    if buf2 and buf2['state'] == 'newer' and not force:
+        if ob['g'] != G_C0 or any(c['name'] == 'g' for c in ob['calls']):
+            bad.append('a save without ! replaced (or opened) the file of the second buffer although it is newer than when it was read')
+        if 'a' in case['cmd'] and ob['quit_by_cmd']:
+            bad.append('xa quit although the save of the second buffer had to be refused (file newer on disk)')
+    if buf2 and 'a' in case['cmd'] and ob['quit_by_cmd'] and ob['g'] != g_text(case):
+        bad.append('xa quit but the file of the second buffer does not hold its text')
+    # (a command with ! is an explicit request to give up other modified buffers)
+    if buf2 and buf2['dirty'] and not force and (ob['quit_by_cmd'] or not ob['alive']) and ob['g'] != G_T:
+        bad.append('the editor quit (or a following :q was accepted) although the modified second buffer is not in its file')
     if protected and wrote_cmd:
         if tgt_after != tgt_before:
             bad.append('a write without ! replaced a file that %s' % ('exists and is not the edited file' if case['tgt'] == 'other' else 'is newer than when it was read'))
         if reported_ok:
             bad.append('a refused write was reported as success (message class %s, quit=%s)' % (ob['cls'], ob['quit_by_cmd']))
-        if ob['calls']:
+        if any(c['name'] == tname for c in final_calls):
             bad.append('a refused write still opened the target')
     if reported_ok and wrote_cmd and tgt_after != want:
         bad.append('the command reported success but the file does not hold exactly the written lines')
@@ -251,10 +327,10 @@ def oracle(case, sched, ob, ob_retry):
         first_round = True
         if case['cmd'] in ('xa', 'xa!') and case['dirty']:
             # xa first writes the current buffer (marks it saved), then saves every buffer again
-            ncl = [c['i'] for c in ob['calls'] if c['op'] == 'close']
-            erri = [c['i'] for c in ob['calls'] if c['err']][0]
+            ncl = [c['i'] for c in final_calls if c['op'] == 'close']
+            erri = [c['i'] for c in final_calls if c['err']][0]
             first_round = not ncl or erri <= ncl[0]
-        if case['dirty'] and first_round and not ob['alive'] and not ob['quit_by_cmd']:
+        if case['dirty'] and first_round and not buf2 and not ob['alive'] and not ob['quit_by_cmd']:
             bad.append('after a failed write the buffer is no longer dirty: a following :q quit and the changes are lost')
         if ob['quit_by_cmd']:
             bad.append('the editor quit although the write failed')
@@ -284,7 +360,7 @@ def compare(case, ob, mline):
             diffs.append('message class: model %s editor %s (%r)' % (mst, cls, ob['msg']))
         if (m['dirty'] == '1') != ob['alive']:
             diffs.append('following :q refused: model %s editor %s' % (m['dirty'] == '1', ob['alive']))
-    for k in ('own', 'other'):
+    for k in ('own', 'other') + (('g',) if case.get('buf2') else ()):
         mv = None if m[k] == 'absent' else vlib.unhx(m[k])
         if mv != ob[k]:
             diffs.append('%s file: model %s bytes, editor %s bytes' % (k, None if mv is None else len(mv), None if ob[k] is None else len(ob[k])))
@@ -298,7 +374,8 @@ def run(ctx):
     build_shim()
     model = ctx.model('io')
     res.rule = ('one evaluation = one (command, buffer size, dirty?, target state, fault) run of the real editor under the shim; faults = every call index of the '
-                'dry-run sequence x {ENOSPC, EIO, EINTR, short 1, short n-1}; non-trivial = a fault was injected and consumed, or a guard case; distinct = distinct (case, fault)')
+                'dry-run sequence x {ENOSPC, EIO, EINTR, short 1, short n-1}, plus 2-5 consecutive faults inside one write batch (short counts then errors); '
+                'cases = single commands, multi-command histories (writes to another path / range / filter before the guarded write), two buffers; non-trivial = a fault was injected and consumed, or a guard case; distinct = distinct (case, fault)')
     work = []          # (case, sched)
     if ctx.replay:
         rp = json.load(open(ctx.replay))
@@ -314,17 +391,33 @@ def run(ctx):
                 work.append((c['case'], [tuple(s) for s in c.get('sched', [])]))
         bases = base_cases()
         dry = vlib.pmap(lambda c: run_case(vi, c, []), bases)
-        allf = []
+        strata = {}        # (command, history kind, single/multi fault) -> schedules
+        n1 = n2 = 0
         for c, ob in zip(bases, dry):
             work.append((c, []))
-            for f in faults_for(ob['calls']):
-                allf.append((c, [f]))
+            one_f, multi_f = faults_for(ob['calls'])
+            hk = 'history' if c.get('pre') else 'two buffers' if c.get('buf2') else 'single'
+            for f in one_f:
+                strata.setdefault((c['cmd'], hk, 1), []).append((c, f))
+            for f in multi_f:
+                strata.setdefault((c['cmd'], hk, 2), []).append((c, f))
+            n1 += len(one_f)
+            n2 += len(multi_f)
         res.extra['base_cases'] = len(bases)
-        res.extra['enumerated_faults'] = len(allf)
+        res.extra['enumerated_single_fault_schedules'] = n1
+        res.extra['enumerated_multi_fault_schedules'] = n2
+        allf = []
         if ctx.quick:
-            rng.shuffle(allf)
-            # keep every (command, position kind) combination represented: stratify by command
-            allf = allf[:420]
+            # stratified: the same quota from every (command, history kind, single/multi) stratum
+            keys = sorted(strata)
+            quota = max(1, 640 // max(1, len(keys)))
+            for k in keys:
+                xs = strata[k]
+                rng.fork(repr(k)).shuffle(xs)
+                allf += xs[:quota]
+        else:
+            for k in sorted(strata):
+                allf += strata[k]
         work += allf
 
     def one(w):
@@ -333,13 +426,14 @@ def run(ctx):
         if ob['crash']:
             ob = run_case(vi, case, sched, timeout=60)
         ob_r = None
-        if any(c['err'] for c in ob['calls']) and not ob['crash']:
+        # the forced retry is meaningful after a transient error only (one error in the schedule), single buffer
+        if any(c['err'] for c in ob['calls']) and not ob['crash'] and not case.get('buf2') and sum(1 for f in sched if f[1] == 'err') <= 1:
             ob_r = run_case(vi, case, sched, retry=True)
         return ob, ob_r
     obs = vlib.pmap(one, work)
     reqs = []
     for case, sched in work:
-        words = sched_words(*sched[0]) if sched else []
+        words = sched_words(sched)
         reqs.append(model_request(case, words))
     out_m = None
     if model:
@@ -353,11 +447,17 @@ def run(ctx):
         res.count('cmd ' + case['cmd'])
         res.count('size ' + case['size'])
         res.count('target %s/%s' % (case['tgt'], case['own'] if case['tgt'] == 'own' else case['other']))
-        if sched:
+        if case.get('pre'):
+            res.count('history: ' + ' / '.join(case['pre']))
+        if case.get('buf2'):
+            res.count('second buffer %s, %s' % ('modified' if case['buf2']['dirty'] else 'clean', case['buf2']['state']))
+        if len(sched) == 1:
             k = sched[0]
             res.count('fault ' + (('err %d' % k[2]) if k[1] == 'err' else ('short ' + ('1' if k[2] == 1 else 'n-1'))))
             op = [c['op'] for c in ob['calls'] if c['i'] == k[0]]
             res.count('fault at ' + (op[0] if op else 'unreached'))
+        elif sched:
+            res.count('multi-fault: ' + ','.join(f[1] for f in sched))
         if (sched and any(c['i'] == sched[0][0] for c in ob['calls'])) or case['own'] == 'newer' or case['other'] != 'absent':
             res.nontriv(i)
         bad = oracle(case, sched, ob, ob_r)
